@@ -323,7 +323,8 @@ class MultipartMarkup:
         self.error = None
 
     def parse(self, chunk: bytes):
-        if self.error is not None:
+        if self.error is not None or self._markuper.stopped:
+            # after the closing delimiter everything is epilogue
             return
         try:
             self._parse(chunk)
